@@ -74,8 +74,6 @@ pub struct Seed {
     pub name: String,
     pub z: ZcashAddress,
     pub kind: &'static str,
-    /// network the value carries (regtest Base58 kinds are normalised to testnet by the constructors, as documented)
-    pub net: NetworkType,
     /// network the value was asked for
     pub requested: NetworkType,
     pub data: Vec<u8>,
@@ -125,25 +123,23 @@ pub fn seeds() -> Vec<Seed> {
     for n in 0..3 {
         let net = NETTYPES[n];
         let b58net = if n == 0 { 0 } else { 1 };
-        let eff = if n == 2 { NetworkType::Test } else { net };
         let sprout: [u8; 64] = filler(1);
         let mut payload = SPROUT_PREFIX[b58net].to_vec();
         payload.extend(sprout);
-        out.push(Seed { name: format!("sprout-{}", NETNAMES[n]), z: ZcashAddress::from_sprout(net, sprout), kind: "sprout", net: eff, requested: net, data: sprout.to_vec(), family: Family::Base58 { payload } });
+        out.push(Seed { name: format!("sprout-{}", NETNAMES[n]), z: ZcashAddress::from_sprout(net, sprout), kind: "sprout", requested: net, data: sprout.to_vec(), family: Family::Base58 { payload } });
         let pkh: [u8; 20] = filler(2);
         let mut payload = P2PKH_PREFIX[b58net].to_vec();
         payload.extend(pkh);
-        out.push(Seed { name: format!("p2pkh-{}", NETNAMES[n]), z: ZcashAddress::from_transparent_p2pkh(net, pkh), kind: "p2pkh", net: eff, requested: net, data: pkh.to_vec(), family: Family::Base58 { payload } });
+        out.push(Seed { name: format!("p2pkh-{}", NETNAMES[n]), z: ZcashAddress::from_transparent_p2pkh(net, pkh), kind: "p2pkh", requested: net, data: pkh.to_vec(), family: Family::Base58 { payload } });
         let sh: [u8; 20] = filler(4);
         let mut payload = P2SH_PREFIX[b58net].to_vec();
         payload.extend(sh);
-        out.push(Seed { name: format!("p2sh-{}", NETNAMES[n]), z: ZcashAddress::from_transparent_p2sh(net, sh), kind: "p2sh", net: eff, requested: net, data: sh.to_vec(), family: Family::Base58 { payload } });
+        out.push(Seed { name: format!("p2sh-{}", NETNAMES[n]), z: ZcashAddress::from_transparent_p2sh(net, sh), kind: "p2sh", requested: net, data: sh.to_vec(), family: Family::Base58 { payload } });
         let sap = sapling_receiver();
         out.push(Seed {
             name: format!("sapling-{}", NETNAMES[n]),
             z: ZcashAddress::from_sapling(net, sap),
             kind: "sapling",
-            net,
             requested: net,
             data: sap.to_vec(),
             family: Family::Bech32 { hrp: SAPLING_HRPS[n], variant: Variant::Bech32, data: sap.to_vec() },
@@ -153,7 +149,6 @@ pub fn seeds() -> Vec<Seed> {
             name: format!("tex-{}", NETNAMES[n]),
             z: ZcashAddress::from_tex(net, tex),
             kind: "tex",
-            net,
             requested: net,
             data: tex.to_vec(),
             family: Family::Bech32 { hrp: TEX_HRPS[n], variant: Variant::Bech32m, data: tex.to_vec() },
@@ -174,7 +169,6 @@ pub fn seeds() -> Vec<Seed> {
                 name: format!("{name}-{}", NETNAMES[n]),
                 z: ZcashAddress::from_unified(net, ua),
                 kind: "unified",
-                net,
                 requested: net,
                 data: typed,
                 family: Family::Bech32 { hrp: UNIFIED_HRPS[n], variant: Variant::Bech32m, data: refenc::f4jumble(&raw).expect("seed raw length is valid") },
